@@ -95,21 +95,25 @@ Record st := mkSt {
   s_bgreq : bool;                                  (* bgResyncRequested *)
   s_full : bool;                                   (* fullResyncRequired *)
   s_panic : bool;                                  (* the Go code panicked *)
-  s_fix2 : bool                                    (* configuration, never changes: the tree has fixes/C16-temp-set-flags.patch *)
+  s_fix2 : bool;                                   (* configuration, never changes: the tree has fixes/C16-temp-set-flags.patch *)
+  s_all : gmap name meta;                          (* setNameToAllMetadata: every set added and not removed, needed or not *)
+  s_filter : option (gset name)                    (* neededIPSetNames (None = no filter: every set is needed) *)
 }.
-Definition init_st : st := mkSt ∅ ∅ ∅ ∅ 0 ∅ ∅ false true false false.
+Definition init_st : st := mkSt ∅ ∅ ∅ ∅ 0 ∅ ∅ false true false false ∅ None.
 
-Definition set_des f s := mkSt (f (s_des s)) (s_dp s) (s_trk s) (s_dirty s) (s_next s) (s_must s) (s_bg s) (s_bgreq s) (s_full s) (s_panic s) (s_fix2 s).
-Definition set_dp f s := mkSt (s_des s) (f (s_dp s)) (s_trk s) (s_dirty s) (s_next s) (s_must s) (s_bg s) (s_bgreq s) (s_full s) (s_panic s) (s_fix2 s).
-Definition set_trk f s := mkSt (s_des s) (s_dp s) (f (s_trk s)) (s_dirty s) (s_next s) (s_must s) (s_bg s) (s_bgreq s) (s_full s) (s_panic s) (s_fix2 s).
-Definition set_dirty f s := mkSt (s_des s) (s_dp s) (s_trk s) (f (s_dirty s)) (s_next s) (s_must s) (s_bg s) (s_bgreq s) (s_full s) (s_panic s) (s_fix2 s).
-Definition set_next v s := mkSt (s_des s) (s_dp s) (s_trk s) (s_dirty s) v (s_must s) (s_bg s) (s_bgreq s) (s_full s) (s_panic s) (s_fix2 s).
-Definition set_must f s := mkSt (s_des s) (s_dp s) (s_trk s) (s_dirty s) (s_next s) (f (s_must s)) (s_bg s) (s_bgreq s) (s_full s) (s_panic s) (s_fix2 s).
-Definition set_bg f s := mkSt (s_des s) (s_dp s) (s_trk s) (s_dirty s) (s_next s) (s_must s) (f (s_bg s)) (s_bgreq s) (s_full s) (s_panic s) (s_fix2 s).
-Definition set_bgreq v s := mkSt (s_des s) (s_dp s) (s_trk s) (s_dirty s) (s_next s) (s_must s) (s_bg s) v (s_full s) (s_panic s) (s_fix2 s).
-Definition set_full v s := mkSt (s_des s) (s_dp s) (s_trk s) (s_dirty s) (s_next s) (s_must s) (s_bg s) (s_bgreq s) v (s_panic s) (s_fix2 s).
-Definition set_fix2 v s := mkSt (s_des s) (s_dp s) (s_trk s) (s_dirty s) (s_next s) (s_must s) (s_bg s) (s_bgreq s) (s_full s) (s_panic s) v.
-Definition set_panic v s := mkSt (s_des s) (s_dp s) (s_trk s) (s_dirty s) (s_next s) (s_must s) (s_bg s) (s_bgreq s) (s_full s) v (s_fix2 s).
+Definition set_des f s := mkSt (f (s_des s)) (s_dp s) (s_trk s) (s_dirty s) (s_next s) (s_must s) (s_bg s) (s_bgreq s) (s_full s) (s_panic s) (s_fix2 s) (s_all s) (s_filter s).
+Definition set_dp f s := mkSt (s_des s) (f (s_dp s)) (s_trk s) (s_dirty s) (s_next s) (s_must s) (s_bg s) (s_bgreq s) (s_full s) (s_panic s) (s_fix2 s) (s_all s) (s_filter s).
+Definition set_trk f s := mkSt (s_des s) (s_dp s) (f (s_trk s)) (s_dirty s) (s_next s) (s_must s) (s_bg s) (s_bgreq s) (s_full s) (s_panic s) (s_fix2 s) (s_all s) (s_filter s).
+Definition set_dirty f s := mkSt (s_des s) (s_dp s) (s_trk s) (f (s_dirty s)) (s_next s) (s_must s) (s_bg s) (s_bgreq s) (s_full s) (s_panic s) (s_fix2 s) (s_all s) (s_filter s).
+Definition set_next v s := mkSt (s_des s) (s_dp s) (s_trk s) (s_dirty s) v (s_must s) (s_bg s) (s_bgreq s) (s_full s) (s_panic s) (s_fix2 s) (s_all s) (s_filter s).
+Definition set_must f s := mkSt (s_des s) (s_dp s) (s_trk s) (s_dirty s) (s_next s) (f (s_must s)) (s_bg s) (s_bgreq s) (s_full s) (s_panic s) (s_fix2 s) (s_all s) (s_filter s).
+Definition set_bg f s := mkSt (s_des s) (s_dp s) (s_trk s) (s_dirty s) (s_next s) (s_must s) (f (s_bg s)) (s_bgreq s) (s_full s) (s_panic s) (s_fix2 s) (s_all s) (s_filter s).
+Definition set_bgreq v s := mkSt (s_des s) (s_dp s) (s_trk s) (s_dirty s) (s_next s) (s_must s) (s_bg s) v (s_full s) (s_panic s) (s_fix2 s) (s_all s) (s_filter s).
+Definition set_full v s := mkSt (s_des s) (s_dp s) (s_trk s) (s_dirty s) (s_next s) (s_must s) (s_bg s) (s_bgreq s) v (s_panic s) (s_fix2 s) (s_all s) (s_filter s).
+Definition set_fix2 v s := mkSt (s_des s) (s_dp s) (s_trk s) (s_dirty s) (s_next s) (s_must s) (s_bg s) (s_bgreq s) (s_full s) (s_panic s) v (s_all s) (s_filter s).
+Definition set_all f s := mkSt (s_des s) (s_dp s) (s_trk s) (s_dirty s) (s_next s) (s_must s) (s_bg s) (s_bgreq s) (s_full s) (s_panic s) (s_fix2 s) (f (s_all s)) (s_filter s).
+Definition set_flt v s := mkSt (s_des s) (s_dp s) (s_trk s) (s_dirty s) (s_next s) (s_must s) (s_bg s) (s_bgreq s) (s_full s) (s_panic s) (s_fix2 s) (s_all s) v.
+Definition set_panic v s := mkSt (s_des s) (s_dp s) (s_trk s) (s_dirty s) (s_next s) (s_must s) (s_bg s) (s_bgreq s) (s_full s) v (s_fix2 s) (s_all s) (s_filter s).
 
 (* resyncQueue.Add / Remove *)
 Definition rq_add_must (n : name) (s : st) : st :=
@@ -119,22 +123,29 @@ Definition rq_add_bg (n : name) (s : st) : st :=
 Definition rq_remove (n : name) (s : st) : st := set_must (.∖ {[n]}) (set_bg (.∖ {[n]}) s).
 Definition rq_empty (s : st) : bool := bool_decide (s_must s = ∅) && bool_decide (s_bg s = ∅).
 
+(* ipSetNeeded *)
+Definition needed_f (f : option (gset name)) (n : name) : bool :=
+  match f with None => true | Some g => bool_decide (n ∈ g) end.
+Definition needed (s : st) (n : name) : bool := needed_f (s_filter s) n.
+
 (* updateDirtiness *)
 Definition upd_dirty (n : name) (s : st) : st :=
   match s_trk s !! n with
   | None => set_dirty (.∖ {[n]}) s
-  | Some (d, p) => if bool_decide (d = p) then set_dirty (.∖ {[n]}) s else set_dirty ({[n]} ∪.) s
+  | Some (d, p) => if needed s n && negb (bool_decide (d = p)) then set_dirty ({[n]} ∪.) s else set_dirty (.∖ {[n]}) s
   end.
 
 (* ---------------------------------------------------------------- API calls *)
 Definition add_or_replace (id : N) (m : meta) (ms : gset member) (s : st) : st :=
   let n := main_name id in
   let p := match s_trk s !! n with Some (_, p) => p | None => ∅ end in
-  upd_dirty n (set_trk <[n := (ms, p)]> (set_des <[n := m]> s)).
+  let s1 := set_all <[n := m]> s in
+  let s2 := if needed s n then set_des <[n := m]> s1 else s1 in
+  upd_dirty n (set_trk <[n := (ms, p)]> s2).
 
 Definition remove_ipset (id : N) (s : st) : st :=
   let n := main_name id in
-  let s1 := set_des (delete n) s in
+  let s1 := set_all (delete n) (set_des (delete n) s) in
   match s_dp s !! n with
   | Some _ => match s_trk s !! n with
               | Some (_, p) => upd_dirty n (set_trk <[n := (∅, p)]> s1)
@@ -145,7 +156,7 @@ Definition remove_ipset (id : N) (s : st) : st :=
 
 Definition change_members (add : bool) (id : N) (ms : gset member) (s : st) : st :=
   let n := main_name id in
-  match s_des s !! n with
+  match s_all s !! n with
   | None => set_panic true s                       (* "called for nonexistent IP set" *)
   | Some _ =>
       if bool_decide (ms = ∅) then s else
@@ -155,6 +166,17 @@ Definition change_members (add : bool) (id : N) (ms : gset member) (s : st) : st
       end
   end.
 
+(* SetFilter: the new filter is stored first, then every set ever added is put into / taken out of the desired view
+   and its dirtiness recomputed (under the NEW filter).  The loop ranges over a Go map; the steps for different names
+   commute, so any order gives the same state. *)
+Definition filter_step (n : name) (m : meta) (s : st) : st :=
+  upd_dirty n (if needed s n then set_des <[n := m]> s else set_des (delete n) s).
+Definition set_filter (f : option (gset name)) (s : st) : st :=
+  match s_filter s, f with
+  | None, None => s
+  | _, _ => foldr (λ nm s, filter_step nm.1 nm.2 s) (set_flt f s) (map_to_list (s_all s))
+  end.
+
 Definition queue_resync (s : st) : st := set_bgreq true s.
 
 (* ---------------------------------------------------------------- resync *)
@@ -162,7 +184,7 @@ Definition queue_resync (s : st) : st := set_bgreq true s.
 Definition on_missing (n : name) (s : st) : st :=
   let s1 := set_dp (delete n) s in
   let s2 := match s_trk s1 !! n with
-            | Some (d, _) => if bool_decide (is_Some (s_des s1 !! n)) then set_trk <[n := (d, ∅)]> s1
+            | Some (d, _) => if bool_decide (is_Some (s_all s1 !! n)) then set_trk <[n := (d, ∅)]> s1
                              else set_trk (delete n) s1
             | None => s1
             end in
@@ -229,6 +251,15 @@ Definition pending_del (s : st) : gset name := dom (s_dp s) ∖ dom (s_des s).
 Definition delete_failed (s : st) (n : name) : bool :=
   match s_dp s !! n with Some (_, (df, _)) => df | None => false end.
 
+(* after a successful destroy: a set that is only filtered out keeps its member tracker, with an empty dataplane
+   side; otherwise the tracker goes *)
+Definition forget_set (n : name) (s : st) : st :=
+  match s_all s !! n, s_trk s !! n with
+  | Some _, Some (d, _) => set_trk <[n := (d, ∅)]> s
+  | Some _, None => s
+  | None, _ => set_trk (delete n) s
+  end.
+
 (* One pass of PendingDeletions().Iter in tryTempIPSetDeletions (temp_only) or ApplyDeletions.
    `tries` = destroy attempts in order, with whether a fault was injected into that destroy.
    Returns state, kernel, events, number of successful deletions (0 or 1). *)
@@ -253,7 +284,7 @@ Fixpoint del_pass (temp_only : bool) (tries : list (name * bool)) (done : gset n
             match rest with
             | [] =>
                 let s1 := rq_remove n s in
-                let s2 := if temp_only then s1 else set_trk (delete n) s1 in
+                let s2 := if temp_only then s1 else forget_set n s1 in
                 Some (set_dp (delete n) s2, k', [(CDestroy n, true, k')], 1%nat)
             | _ => None      (* MaxIPSetDeletionsPerIteration = 1 *)
             end
